@@ -94,7 +94,7 @@ CHECKS["C05"] = {
         "thorough": {"RoundTrip": "same payload lengths; 0,1,2,3,19,255 signatures",
                      "Decode": "every byte string of length 0..400; long inputs as in quick", "unwind": 3000}},
     "outside": "byte strings longer than the listed ranges other than the constant-derived lengths; payload lengths not listed; timestamps >= 2^32 (not representable in the format)",
-    "assumptions": ["encoding/binary.Read/Write modelled as big-endian bytes of the static fixed-size type (DESIGN 4.2); bytes.Reader/bytes.Buffer executed as real code",
+    "assumptions": ["encoding/binary.Read/Write modelled as big-endian bytes of the static fixed-size type (DESIGN 4); bytes.Reader/bytes.Buffer executed as real code",
                     "Keccak-256 as an uninterpreted function per input length (the digest assertion needs only congruence)"],
 }
 
@@ -122,7 +122,7 @@ CHECKS["C06"] = {
                   "body": "all body fields symbolic, payload length 1..2"},
         "thorough": {"guardian list": "n in {0,1,2,3,4,19,255}, with and without a repeated address", "signatures": "k <= 3 everywhere"}},
     "outside": "k >= 4 signatures; lists with more than one repeated address; list lengths other than those listed (the code's only size-dependent operations are the two integer comparisons against len(list), exercised at 0..4, 19 and 255 with a symbolic index byte)",
-    "assumptions": ["ecrecover model (DESIGN 4.1): a (digest,signature) pair produced by SignBy recovers to its key; any other pair fails or recovers to an address different from every honest key (existential unforgeability); recovery is a function of (digest, signature)",
+    "assumptions": ["ecrecover model (DESIGN 4): a (digest,signature) pair produced by SignBy recovers to its key; any other pair fails or recovers to an address different from every honest key (existential unforgeability); recovery is a function of (digest, signature)",
                     "Keccak-256 uninterpreted; VerifC06_BodyBound additionally assumes collision-freeness on the pre-images hashed on the path"],
 }
 
@@ -138,7 +138,7 @@ CHECKS["C04"] = {
     "bounds": {"quick": {"payload length": "0,1,2,3,100", "signatures": "0..2 (Layout), 0..1 (Independence)", "fields": "every field fully symbolic, nanoseconds 0..999999999 symbolic"},
                "thorough": {"payload length": "0,1,2,3,100,1000,1001", "signatures": "0..4"}},
     "outside": "payload lengths and signature counts not listed; timestamps outside the 32-bit whole-second range of the wire format; the contracts themselves are read as text (layout and hash structure extracted by pattern, fail-closed), not executed",
-    "assumptions": ["Keccak-256 uninterpreted (congruence only)", "encoding/binary.Write model (DESIGN 4.2)",
+    "assumptions": ["Keccak-256 uninterpreted (congruence only)", "encoding/binary.Write model (DESIGN 4)",
                     "contract layouts come from extract/contracts.py run on the current contract sources"],
 }
 
@@ -164,7 +164,7 @@ CHECKS["C12"] = {
                          "unwind": 3000},
                "thorough": {"key lemmas": "sequences < 1000", "store": "additionally 3 stored VAAs with chain ids of 1..3 digits"}},
     "outside": "badger itself (modelled as a key->value map whose prefix iteration visits exactly the keys having the prefix); 4-digit chain ids in the store harness (covered by the key lemmas); more than 3 stored VAAs; sequences >= 1000 in keys and > 3 in the gap loop (at 2^64-1 the gap loop cannot terminate - noted, not a property subject); the order of batch results",
-    "assumptions": ["badger model (DESIGN 4.4): Get of an absent key returns ErrKeyNotFound; an iterator visits exactly the present keys that have the Seek prefix",
+    "assumptions": ["badger model (DESIGN 4): Get of an absent key returns ErrKeyNotFound; an iterator visits exactly the present keys that have the Seek prefix",
                     "fmt %d rendered exactly: digit-count forks, digit variables tied to the value by value = sum d_i*10^i",
                     "hex.EncodeToString modelled as the injective per-nibble rendering"],
 }
@@ -199,9 +199,9 @@ CHECKS["C01"] = {
                          "unwind": 3000},
                "thorough": {"observation path": "n = 1..4, own at every position, adversarial observation at three places, payload 0..2 bytes for n <= 2", "set change": "|A|,|B| in 1..3", "inbound": "n <= 4 with <= 3 signatures"}},
     "outside": "guardian sets larger than 4 (6 on the inbound path with honest signatures only) - the size-dependent arithmetic is covered for all n <= 255 by C07 and the index/ordering logic for n up to 255 by C06; more than one adversarial observation per history; more than one message per history; libp2p transport and the reporter; badger (key-value model); timing",
-    "assumptions": ["ecrecover/keccak model (DESIGN 4.1): unforgeability - a signature not produced by SignBy never recovers to an honest key",
+    "assumptions": ["ecrecover/keccak model (DESIGN 4): unforgeability - a signature not produced by SignBy never recovers to an honest key",
                     "(*VAAID).Bytes summarised as an injective encoding of its four fields (licensed by C12's key-injectivity lemma)",
-                    "proto.Marshal/Unmarshal: opaque handle carrying the message (DESIGN 4.2); badger as a key-value map; zap/prometheus/reporter no-ops",
+                    "proto.Marshal/Unmarshal: opaque handle carrying the message (DESIGN 4); badger as a key-value map; zap/prometheus/reporter no-ops",
                     "the processor is one goroutine: a history is a sequence of handler calls; the own-observation loopback goroutine is delivered at a harness-chosen point"],
 }
 _c02_q = (["n=1;m.plen=1"] + ["n=2;m.plen=1;own=%d;noise=%s" % (o, z) for o in (0, 1) for z in ("0,1,2,3", "5,6,7")] +
@@ -270,7 +270,7 @@ CHECKS["C03"] = {
                          "observation": "sets A={0,1}, B={1,2}; optional earlier gossip observation; node never observed / observed under A / observed after the change; optional change to B; test observation honest by key 0..3 (optionally under another key's address) or 117 arbitrary bytes"},
                "thorough": {"observation": "message payload 0..2 bytes"}},
     "outside": "libp2p transport and pubsub validation; the operator opt-out disableHeartbeatVerify=true; proto decoding of the heartbeat body (opaque model: may fail or yield any message); guardian sets larger than 2; Keccak collisions (collision-freeness assumed for the cross-domain claims)",
-    "assumptions": ["ecrecover/keccak model (DESIGN 4.1); AssumeCollisionFree: different pre-images (or lengths) hashed on a path have different digests",
+    "assumptions": ["ecrecover/keccak model (DESIGN 4); AssumeCollisionFree: different pre-images (or lengths) hashed on a path have different digests",
                     "pkg/p2p is loaded through an overlay in which only the body of p2p.Run is replaced by panic(\"stripped\") (quic-go does not build with the installed Go); processSignedHeartbeat / processSignedObservationRequest are byte-identical",
                     "proto.Unmarshal of attacker bytes: nondeterministic success/failure"] + CHECKS["C01"]["assumptions"][1:],
 }
@@ -355,7 +355,7 @@ CHECKS["C19"] = {
                          "lookup during append": "1..2 known sets, append of 1..2 sets, one lookup of index 0..3 forked after EVERY store the append performs to the shared object, and once afterwards"},
                "thorough": {"gate": "3 sets with up to 3 signatures"}},
     "outside": "more than one concurrent reader or writer; weak-memory reorderings and everything else only the race detector can tell (the interleaving is sequentially consistent, at the granularity of the writer's stores); the chain walk for a future index (the model has no network: it fails, as it does natively with an empty RPC URL); explorer-backend links the node module from the module cache (vaa.VerifySignatures / CalculateQuorum of that copy are what is executed)",
-    "assumptions": ["ecrecover/keccak model (DESIGN 4.1)", "dedup cache = harness map behind the gocache interface", "ethclient.Dial fails (no network)",
+    "assumptions": ["ecrecover/keccak model (DESIGN 4)", "dedup cache = harness map behind the gocache interface", "ethclient.Dial fails (no network)",
                     "fmt %d exact rendering for the message id (one-digit operands)"],
 }
 _ALPH_OPTS = {"z3": "z3-new", "clockfiles": "pkg/alephium/watcher.go,pkg/alephium/reobserve.go", "hookfiles": "pkg/alephium/client.go:Client"}
@@ -428,3 +428,12 @@ CHECKS["C18"] = {
 
 # generated harness parts per (module, package): regenerated from /repo on every run for every check that loads the package
 GENERATORS = {("node", "./pkg/vaa"): [_gen_c04], ("node", "./pkg/processor"): [_gen_c07], ("node", "./pkg/alephium"): [_gen_c11], ("node", "./cmd/guardiand"): [_gen_c15]}
+
+
+# ---- level texts for checks whose claim is deliberately narrower than the property statement ----
+_BASE_LEVEL = "Bounded symbolic execution of the real functions; an SMT solver decides the assertions for every value inside the stated bounds; silent outside them."
+CHECKS["C07"]["level_text"] = "Symbolic execution of CalculateQuorum (node, and the copy the explorer links) for a symbolic n over the whole domain 0..255 - exhaustive for the property's domain - and solver comparison with the formulas extracted from the Solidity and Ralph contracts."
+CHECKS["C17"]["level_text"] = _BASE_LEVEL + " Schedules: cooperative goroutines with pre-emption explored before every channel/mutex operation of the two posters; no weak-memory effects."
+CHECKS["C18"]["level_text"] = "PARTIAL: bounded symbolic execution of the supervisor's sequential decision procedures (death classification, restart scan, kill, start wrapper) from arbitrary node states of trees with up to 4 nodes; real goroutine interleavings, scan timing and back-off durations are not decided."
+CHECKS["C19"]["level_text"] = _BASE_LEVEL + " Concurrency: a lookup is forked after every store of the appending writer (sequentially consistent interleavings at store granularity); weak-memory effects and the race detector's verdict are outside."
+CHECKS["C20"]["level_text"] = _BASE_LEVEL + " Concurrency: cooperative scheduler (blocking = no runnable goroutine); one open known finding (C20-n)."
